@@ -245,6 +245,7 @@ func timelineMonitor(prop string) L1Monitor {
 		}
 		finals := map[fkey]outView{}
 		var finalOrder []fkey
+		deletedAt := map[fkey]int{} // index removed by an accepted delete (step), until it is proposed again
 		lastNow := int64(-1 << 62)
 		for i, o := range c.Ops {
 			cur := decodeBridges(c.Obs[i])
@@ -280,6 +281,19 @@ func timelineMonitor(prop string) L1Monitor {
 					viol(i, "window", fmt.Sprintf("withdrawal finalized at %d against output proposed at %d with period %d: unix %d < %d", o.Now, out.Time, p.Period,
 						floorDivSec(big.NewInt(o.Now)), floorDivSec(new(big.Int).Add(big.NewInt(out.Time), big.NewInt(p.Period)))))
 				}
+			}
+			if o.Kind == "finalize" && ok && tk >= 0 {
+				if st, del := deletedAt[fkey{tk, o.Idx}]; del {
+					viol(i, "deleted-used", fmt.Sprintf("withdrawal finalized against bridge %d index %d, which was deleted at step %d and never proposed again", o.Bridge, o.Idx, st))
+				}
+			}
+			if o.Kind == "delete" && ok && tk >= 0 {
+				for j := o.Idx; j < prev[tk].Next; j++ {
+					deletedAt[fkey{tk, j}] = i
+				}
+			}
+			if o.Kind == "propose" && ok && tk >= 0 {
+				delete(deletedAt, fkey{tk, o.Idx})
 			}
 			if o.Kind == "delete" && ok && tk >= 0 {
 				for _, x := range prev[tk].Outs {
@@ -345,6 +359,11 @@ func timelineMonitor(prop string) L1Monitor {
 						if x.Idx > maxFinal {
 							maxFinal, l2 = x.Idx, x.L2
 						}
+					}
+				}
+				if v.HasLf && v.LfIdx != 0 {
+					if st, del := deletedAt[fkey{k, v.LfIdx}]; del {
+						viol(i, "last-finalized-deleted", fmt.Sprintf("bridge %d: LastFinalizedOutput names index %d, which was deleted at step %d and never proposed again", c.Track.Bridges[k], v.LfIdx, st))
 					}
 				}
 				if v.HasLf && (v.LfIdx != maxFinal || v.LfL2 != l2) {
